@@ -38,7 +38,7 @@ import (
 type TaskSpec struct {
 	Kind string   `json:"kind"`
 	Doc  string   `json:"doc,omitempty"`
-	Sets []string `json:"sets,omitempty"`  // installer: successive registry contents ("AB", "aBC", ...; Z is always present; a lower-case letter is the OLDER revision of that font: same name, different font program)
+	Sets []string `json:"sets,omitempty"` // installer: successive registry contents ("AB", "aBC", ...; Z is always present; a lower-case letter is the OLDER revision of that font: same name, different font program)
 	Args []string `json:"args,omitempty"` // lookup: names to look up; "read:<name>" reads the installed font program (font.Read)
 }
 
@@ -50,29 +50,29 @@ type RunSpec struct {
 	SwitchPermille int        `json:"switch_permille"`
 	PCTDepth       int        `json:"pct_depth,omitempty"`   // > 0: PCT strategy with this depth instead of a coin per scheduling point
 	PCTHorizon     int        `json:"pct_horizon,omitempty"` // priority change points fall among the first PCTHorizon scheduling points
-	Preload        bool       `json:"preload"` // call LoadUserFonts before the tasks start
-	Solo           bool       `json:"solo"`    // no interleaving: tasks run one after the other
+	Preload        bool       `json:"preload"`               // call LoadUserFonts before the tasks start
+	Solo           bool       `json:"solo"`                  // no interleaving: tasks run one after the other
 }
 
 // HistEvent is one font-registry operation.
 type HistEvent struct {
-	Task   int      `json:"task"`
-	Op     string   `json:"op"` // reload isuser names | read (font.Read of Arg) | disk (the installer published revision/absence of a font file: Arg = "<name>=<rev|absent>")
-	Arg    string   `json:"arg,omitempty"`
-	Result string   `json:"result"`
-	Call   int      `json:"call"`
-	Ret    int      `json:"ret"`
+	Task   int    `json:"task"`
+	Op     string `json:"op"` // reload isuser names | read (font.Read of Arg) | disk (the installer published revision/absence of a font file: Arg = "<name>=<rev|absent>")
+	Arg    string `json:"arg,omitempty"`
+	Result string `json:"result"`
+	Call   int    `json:"call"`
+	Ret    int    `json:"ret"`
 }
 
 // RunResult is printed by the child as one JSON line.
 type RunResult struct {
-	Results  []string    `json:"results"` // per task: normalised result or "ERR: ..."
-	History  []HistEvent `json:"history"`
-	Steps    int         `json:"steps"`
-	Switches int         `json:"switches"`
-	Deadlock string      `json:"deadlock,omitempty"`
-	Panics   map[int]string `json:"panics,omitempty"`
-	TraceSum string      `json:"trace_sum"`
+	Results  []string        `json:"results"` // per task: normalised result or "ERR: ..."
+	History  []HistEvent     `json:"history"`
+	Steps    int             `json:"steps"`
+	Switches int             `json:"switches"`
+	Deadlock string          `json:"deadlock,omitempty"`
+	Panics   map[int]string  `json:"panics,omitempty"`
+	TraceSum string          `json:"trace_sum"`
 	Trace    []simsched.Step `json:"trace,omitempty"`
 }
 
@@ -120,7 +120,7 @@ type Batch struct {
 
 func runSchedule(spec RunSpec, pool string, first bool) (*RunResult, int) {
 	runtime.VerifSetMapRand(spec.Seed) // map seeds and walk orders are part of the schedule
-	simclock.Install(spec.Seed)         // and so is the time the tasks read
+	simclock.Install(spec.Seed)        // and so is the time the tasks read
 	defer simclock.Uninstall()
 	work, err := os.MkdirTemp(os.Getenv("VERIF_SCRATCH"), "c40-")
 	if err != nil {
@@ -387,12 +387,12 @@ type c40 struct{}
 
 func init() { core.Register(c40{}) }
 
-func (c40) ID() string    { return "C40" }
+func (c40) ID() string { return "C40" }
 
 // MaxWorkers: race-detector processes slow each other down badly in this sandbox (page-fault cost
 // grows with the number of concurrent TSan processes); more than a few in parallel is slower, not faster.
 func (c40) MaxWorkers() int { return 4 }
-func (c40) Level() string { return "exploration" }
+func (c40) Level() string   { return "exploration" }
 func (c40) Rule() string {
 	return "one schedule = one fresh process built with the race detector: 2-32 caller tasks (validate, optimize, rotate, text watermark with a core font and with a user font, encrypt, merge, split, form fill, font lookups, font reload, and at most one installer that rewrites the font directory through a sequence of sets and reloads) on private in-memory inputs, with the configuration directory disabled; the cooperative scheduler lets exactly one task run and chooses the next one from the seed at every lock/unlock of sync.Mutex/RWMutex (incl. sync.Once) and every file-system call; switch probability and task mix vary per schedule; in half of the schedules without an installer the lazy first font load races with the lookups. Every schedule is also run once without interleaving in another fresh process. Distinct by the hash of the scheduling-point sequence; non-trivial when at least one task switch happened."
 }
